@@ -73,7 +73,7 @@ def silent_case(rng, seed):
 
 
 def stop_case(rng, seed):
-    t = rng.randrange(9)
+    t = rng.randrange(11)
     ops = ["sched %d" % seed]
     if t == 0:
         ops += ["drv run", "usr u1 stop"]
@@ -92,6 +92,11 @@ def stop_case(rng, seed):
         ops += ["drv stepsrun %d 0" % rng.randrange(1, 4), "usr u1 stop"]
     elif t == 8:
         ops += ["drv stepsrun 2 0", "usr u1 todostop:0"]
+    elif t == 9:
+        # Stop() from a signal handler interrupting the driver thread at its k-th scheduling point (any point of Run)
+        ops += ["drv run", "sigstop %d" % rng.randrange(1, 12)]
+    elif t == 10:
+        ops += ["drv run", "sigstop %d" % rng.randrange(1, 40), "usr u1 udp yield close", "usr u2 todo:0 yield cancel"]
     else:
         ops += ["drv runs 3", "usr u1 stop waitrun:1 udp close stop", "usr u2 waitrun:2 stop"]
     ops.append("go")
